@@ -36,6 +36,7 @@ ASSUMPTIONS = [
 MIN_NONTRIVIAL_FRACTION = 0.3
 RULE += " Added after the seeded rounds: " + 'A case may reach its electorate through a history (`hist`: add_agent / remove_agent / set_agent_weight / set_strategy with earlier votes and statistics calls) and must then decide like a fresh colony with the same electorate; S9 re-seats the voters in another order (exact-rational guard against float near-ties); stub exceptions are drawn from 16 exception types.'
 RULE += " Voters whose PERMIT reply cannot be converted into a ballot (confidence 'high' / None) are failed voters; 1/25 of the histories cast 1001 earlier votes (bound of the vote history)."
+RULE += ' S10 mirror image: under the default / >= 1/2 thresholds of the non-count strategies a ballot and its mirror (every PERMIT and BLOCK exchanged) cannot both be PERMIT (decisions within 1e-9 of the threshold left alone).'
 
 # BADCONF / BADCONF_NONE: the voter answers PERMIT but its reply cannot be converted into a ballot (confidence "high" / None): a failed voter
 KINDS = ["PERMIT", "EXECUTE", "BLOCK", "UNKNOWN", "DEFER", "FAILURE", "RAISE", "BADCONF", "BADCONF_NONE"]
@@ -262,6 +263,22 @@ def judge(case):
                 out.fail("S9-seating-order-dependent:" + tag, "the same ballots give %s in the given order and %s when %s"
                          % (res.decision.value, r2.decision.value, order_name), dict(obs, voters=voters))
                 break
+    # S10 mirror image: under a criterion that demands more than half of the (weighted) support, a ballot and the ballot with every
+    # PERMIT and BLOCK exchanged cannot both be PERMIT.  Count thresholds (THRESHOLD, emergency) and custom thresholds below 1/2 are excluded;
+    # a decision within 1e-9 of the threshold in either run is left alone (float noise on an exact tie).
+    if res.reached and not emergency and strat != "THRESHOLD" and (thr is None or thr >= 0.5) and b > 0 and not case.get("hist"):
+        swap = {"PERMIT": "BLOCK", "EXECUTE": "BLOCK", "BLOCK": "PERMIT"}
+        mirror = [[swap.get(v[0], v[0]), v[1], v[2]] for v in voters]
+        try:
+            rm = _run(case, mirror)
+        except Exception as e:
+            out.fail("raise:%s:%s" % (type(e).__name__, tag), "run_vote raised %s" % e, {"voters": mirror})
+            rm = None
+        if rm is not None and rm.reached:
+            t_used = float(thr) if thr else (0.666 if strat == "SUPERMAJORITY" else 0.5)
+            if strat in ("MAJORITY", "SUPERMAJORITY", "UNANIMOUS") or (abs(res.weighted_score - t_used) > 1e-9 and abs(rm.weighted_score - t_used) > 1e-9):
+                out.fail("S10-ballot-and-mirror-both-permit:" + tag, "this ballot is PERMIT (score %r) and so is its mirror image with every permit and block exchanged (score %r)"
+                         % (res.weighted_score, rm.weighted_score), dict(obs, voters=voters))
     # S1
     if res.reached != (res.decision == VoteType.PERMIT):
         out.fail("S1-reached-vs-decision:" + tag, "reached=%s but decision=%s" % (res.reached, res.decision.value), obs)
